@@ -39,6 +39,19 @@ inside / outside the daylight-saving period of America/New_York, Australia/Lord_
 around the DST switches (requests straddle a switch) are judged with the PROCESS time zone switched to that zone (lib.ProcessTZ): honest
 ones must be accepted, time fields moved by +-1 s / +-1 h / +- the zone's offset, a flipped signature bit and an omission refused; the
 octets /repo builds must equal dnspython's (computed from integers) and the model's; the model must agree on every verdict.
+DEGENERATE values (`degenerate_signature_fields`, `degenerate_key_fields`, `degenerate_request_stream`, `xml_degenerate_stream`): besides bit
+flips and +-1, every signed field of a signature (signer's name, original TTL, labels, inception, expiration, key tag, algorithm, type
+covered), the signature octets, the attribution, and every field of a key (public key octets, flags, protocol, algorithm, identifier) is set
+to: the EMPTY string, white space only, the value's prefix / suffix / first character (of the text, of the decimal numeral, of the octet
+string), zero, the wire maximum, minus one / the negated value, the octets zero- or 0xFF-filled or zero-extended, swapped / equal / zero
+times.  Each must be REFUSED (policy violation or a clean error) -- the signed octets differ or no RRSIG / DNSKEY with such a field exists
+-- judged by construction and by the independent oracle (dnspython TBS + `cryptography`; ECDSA signatures must be the fixed-width r | s of
+RFC 6605 section 4); fields that are NOT signed (Signature.ttl, Key.ttl, Key.key_tag) are controls that must not matter.  Three levels: single
+bundles (`validate_signatures`, `check_proof_of_possession`), whole requests (`validate_request`), and KSR DOCUMENTS: honest requests
+rendered as XML text (own renderer) with ONE element text / attribute written at a degenerate value (empty element, white space, truncated
+text, `0`, maximum, `-1`, a dateTime without seconds / date only / at the epoch / before it / in year 9999, `dnskey`, `48`, `DS` ...)
+through `request_from_xml` + `validate_request`; there the independent reading is ElementTree + XML-Schema lexical rules (`read_field`), and
+the honest value written differently (white space around an element text, `Z` for `+00:00`) is a control that must be accepted.
 State carried between requests (`pair_stream`): request A, then request B in the SAME process (B re-using A's identifiers
 with a signature missing / other key material / other signers / a same-tag stranger key; A tampered and B honest; B == A);
 B's verdict must be the property's, the model's, and the verdict of a FRESH process that sees B alone.
@@ -66,6 +79,10 @@ ASSUMPTIONS = [
     "expected to be rejected because the to-be-signed octets or the key differ (proved: tbs_injective), not because of a theorem about the primitive",
     "dnspython 2.8 is a correct independent implementation of RFC 4034 section 3.1.8.1 / 6.3",
     "no two keys of a bundle have identical RDATA (an RRset is a set; see DESIGN.md section 5)",
+    "XML text path: element text of the simple-typed KSR fields is white-space collapsed (XML Schema), integers are an optional sign and ASCII digits, "
+    "times are xsd:dateTime in UTC; a text outside these lexical spaces makes the document malformed (expected: refused)",
+    "base64 text that is not canonical (white space only, ...) is outside the Lean model's domain (it answers unsupported); such cases are judged by "
+    "construction and by the independent oracle only and are counted",
 ]
 TRUSTED = ["dnspython as TBS oracle and `cryptography` (called directly) as verification oracle in corr_C07",
            "TZ + tzset (lib.ProcessTZ, which verifies libc's localtime follows) as the way to put the process into another time zone"]
@@ -329,7 +346,19 @@ def degenerate_octets(b64text: str) -> list[tuple[str, str]]:
     enc = lambda b: base64.b64encode(b).decode()  # noqa: E731
     half = len(raw) // 2
     return [("empty", ""), ("space", " "), ("first-half", enc(raw[:half])), ("second-half", enc(raw[half:])), ("first-octet", enc(raw[:1])), ("without-first-octet", enc(raw[1:])),
-            ("all-zero", enc(bytes(len(raw)))), ("all-ff", enc(b"\xff" * len(raw)))]
+            ("all-zero", enc(bytes(len(raw)))), ("all-ff", enc(b"\xff" * len(raw))),
+            # the same big-endian number(s) in MORE octets: a zero octet in front of the whole / in front of each half
+            ("leading-zero-octet", enc(b"\x00" + raw)), ("zero-padded-halves", enc(b"\x00" + raw[:half] + b"\x00" + raw[half:]))]
+
+
+def ecdsa_same_numbers_other_width(alg: int, honest_b64: str, other_b64: str) -> bool:
+    """an ECDSA signature field of ANOTHER LENGTH that a reader splitting the field in the middle turns into the same two numbers (zero
+    octets added in front of each half; a leading zero octet of r dropped): not the fixed-width r | s RFC 6605 section 4 prescribes"""
+    if alg not in (13, 14):
+        return False
+    a, b = base64.b64decode(honest_b64), base64.b64decode(other_b64)
+    nums = lambda x: (int.from_bytes(x[: len(x) // 2], "big"), int.from_bytes(x[len(x) // 2 :], "big"))  # noqa: E731
+    return bool(b) and len(a) != len(b) and nums(a) == nums(b)
 
 
 def degenerate_signature_fields(s0: dict[str, Any]) -> list[tuple[str, dict[str, Any]]]:
@@ -356,17 +385,9 @@ def degenerate_signature_fields(s0: dict[str, Any]) -> list[tuple[str, dict[str,
     for nm, v in degenerate_ints(s0["ttl"], 2**32 - 1):
         if nm in ("zero", "max", "prefix"):
             out.append((f"control:degenerate-sig-ttl:{nm}", {"ttl": v}))
-    honest_raw = base64.b64decode(s0["sig"])
-    h2 = len(honest_raw) // 2
-    widened = [("leading-zero-octet", base64.b64encode(b"\x00" + honest_raw).decode()),
-               ("zero-padded-halves", base64.b64encode(b"\x00" + honest_raw[:h2] + b"\x00" + honest_raw[h2:]).decode())]
-    for nm, v in degenerate_octets(s0["sig"]) + widened:
-        raw2 = base64.b64decode(v)
-        same_numbers = bool(raw2) and (int.from_bytes(raw2[: len(raw2) // 2], "big"), int.from_bytes(raw2[len(raw2) // 2 :], "big")) == (int.from_bytes(honest_raw[:h2], "big"), int.from_bytes(honest_raw[h2:], "big"))
-        if s0["alg"] in (13, 14) and len(raw2) != len(honest_raw) and same_numbers:
-            # other OCTETS that a reader splitting the field in the middle turns into the same two numbers (zero octets added in front of
-            # each half; a leading zero octet of r dropped): not the fixed-width r | s of RFC 6605, an independent validator refuses it
-            out.append((f"tamper:ecdsa-sig-not-fixed-width:{nm}", {"sig": v}))
+    for nm, v in degenerate_octets(s0["sig"]):
+        if ecdsa_same_numbers_other_width(s0["alg"], s0["sig"], v):
+            out.append((f"tamper:ecdsa-sig-not-fixed-width:{nm}", {"sig": v}))  # an independent validator refuses it: own class
         else:
             out.append((f"tamper:degenerate-sig-octets:{nm}", {"sig": v}))
     for nm, v in degenerate_texts(s0["id"]):
@@ -615,6 +636,20 @@ def variants(r: Any, case: dict[str, Any], tks: list[Any], tier: str, heavy: boo
     c["keys"] = []
     out.append(("tamper:no-keys", c))
     return out
+
+
+def outside_model_base64(specs: list[dict[str, Any]]) -> bool:
+    """True when a key / signature text of these bundle cases is not CANONICAL base64 (white space, other characters Python's
+    non-validating b64decode skips, missing padding): the Lean model keeps such text outside its domain and answers "unsupported"
+    (DESIGN.md section 3, bytes and text); the case is then judged by the specification alone and counted."""
+    for c in specs:
+        for t in [k["pk"] for k in c["keys"]] + [g["sig"] for g in c["sigs"]]:
+            try:
+                if base64.b64encode(base64.b64decode(t, validate=True)).decode() != t:
+                    return True
+            except Exception:  # noqa: BLE001
+                return True
+    return False
 
 
 def expected_accept(tag: str) -> bool:
@@ -908,6 +943,278 @@ def roll_stream(r: Any, tier: str, pool: dict[str, list[tuple[Any, int]]]) -> li
     return out
 
 
+# ---- degenerate field values in whole requests (objects) and in KSR documents (XML text) ---------------------------------------
+
+
+def degenerate_request_stream(r: Any, tier: str, pool: dict[str, list[tuple[Any, int]]]) -> list[tuple[str, list[dict[str, Any]], bool, dict[str, Any]]]:
+    """(tag, request, expected accept, facts): whole requests in which ONE signature of one bundle (first / last bundle) has one signed
+    field -- or its attribution -- at a degenerate value (degenerate_signature_fields), everything else honest; through validate_request."""
+    out = []
+    plans = [("zsk-roll/3/rsa1024", r.sample(pool["rsa1024"], 3), [[0, 1], [1], [1, 2]]),
+             ("same-two-throughout/2/mixed", [r.choice(pool["ec"]), r.choice(pool["rsa1024"])], [[0, 1], [0, 1]])]
+    for plan, members, layout in plans:
+        base = honest_request(members, layout)
+        nb = len(base)
+        for b in (0, nb - 1):
+            si = 0
+            for dtag, kw in degenerate_signature_fields(base[b]["sigs"][si]):
+                cls, what, nm = dtag.split(":", 2)
+                c = clone_request(base)
+                c[b]["sigs"][si].update(kw)
+                facts = {"nb": nb, "degenerate": what, "value": nm, "in_bundle": b}
+                out.append((f"degen:{'control-' if cls == 'control' else ''}{what}:{nm}:b{b}of{nb}|{plan}", strip_request(c), cls == "control", facts))
+    return out
+
+
+XML_INC = INC + 7 * SEC  # 2017-07-14T02:40:07Z: no calendar field of it is zero, so that a truncated text never denotes the same instant
+
+
+def xml_time(us: int) -> str:
+    import time as _t
+
+    assert us % SEC == 0
+    return _t.strftime("%Y-%m-%dT%H:%M:%S", _t.gmtime(us // SEC)) + "+00:00"  # gmtime: pure arithmetic, no zone
+
+
+# (spec field, XML element or attribute, lexical kind, signed?)   kinds: uint / time / type / name / b64 / id
+XML_SIG_FIELDS = [("id", "@keyIdentifier", "id", True), ("ttl", "TTL", "uint", False), ("type", "TypeCovered", "type", True), ("alg", "Algorithm", "uint", True),
+                  ("labels", "Labels", "uint", True), ("ottl", "OriginalTTL", "uint", True), ("exp", "SignatureExpiration", "time", True),
+                  ("inc", "SignatureInception", "time", True), ("tag", "KeyTag", "uint", True), ("name", "SignersName", "name", True), ("sig", "SignatureData", "b64", True)]
+XML_KEY_FIELDS = [("id", "@keyIdentifier", "id", True), ("tag", "@keyTag", "uint", "other-rule"), ("ttl", "TTL", "uint", False), ("flags", "Flags", "uint", True),
+                  ("protocol", "Protocol", "uint", True), ("alg", "Algorithm", "uint", True), ("pk", "PublicKey", "b64", True)]
+UINT_MAX = {"ttl": 2**32 - 1, "ottl": 2**32 - 1, "labels": 255, "tag": 65535, "alg": 255, "flags": 65535, "protocol": 255}
+
+
+def honest_text(spec: dict[str, Any], field: str, kind: str) -> str:
+    if kind == "time":
+        return xml_time(spec[field])
+    if kind == "type":
+        return "DNSKEY"
+    return str(spec[field])
+
+
+def render_ksr(bundles: list[dict[str, Any]], override: tuple[int, str, int, str, str] | None = None, rid: str = "xml-req") -> str:
+    """A KSR document for a list of bundle cases, in the plain layout of the reference clients; written from the case data alone (no
+    /repo code).  `override` = (bundle, "key" | "sig", index, spec field, RAW TEXT): that one element text / attribute value is written
+    as given instead of the honest text."""
+    allk = {k["id"]: k for b in bundles for k in b["keys"]}
+    algs = []
+    seen = set()
+    for k in allk.values():
+        blob = base64.b64decode(k["pk"])
+        if k["alg"] in (8, 10):
+            elen = blob[0]
+            item = f'<SignatureAlgorithm algorithm="{k["alg"]}"><RSA size="{(len(blob) - 1 - elen) * 8}" exponent="{int.from_bytes(blob[1 : 1 + elen], "big")}"/></SignatureAlgorithm>'
+        else:
+            item = f'<SignatureAlgorithm algorithm="{k["alg"]}"><ECDSA size="{256 if k["alg"] == 13 else 384}"/></SignatureAlgorithm>'
+        if item not in seen:
+            seen.add(item)
+            algs.append(item)
+    out = ['<?xml version="1.0" encoding="UTF-8"?>', f'<KSR id="{rid}" domain="." serial="1">', "<Request>", "<RequestPolicy>", "<ZSK>",
+           "<PublishSafety>P10D</PublishSafety>", "<RetireSafety>P10D</RetireSafety>", "<MaxSignatureValidity>P21D</MaxSignatureValidity>",
+           "<MinSignatureValidity>P21D</MinSignatureValidity>", "<MaxValidityOverlap>P12D</MaxValidityOverlap>", "<MinValidityOverlap>P9D</MinValidityOverlap>",
+           *algs, "</ZSK>", "</RequestPolicy>"]
+
+    def text(bi: int, what: str, idx: int, spec: dict[str, Any], field: str, kind: str) -> str:
+        if override is not None and override[:4] == (bi, what, idx, field):
+            return override[4]
+        return honest_text(spec, field, kind)
+
+    for bi, b in enumerate(bundles):
+        out.append(f'<RequestBundle id="b{bi}">')
+        out.append(f"<Inception>{xml_time(b['inc'])}</Inception>")
+        out.append(f"<Expiration>{xml_time(b['exp'])}</Expiration>")
+        for ki, k in enumerate(b["keys"]):
+            t = {f: text(bi, "key", ki, k, f, kind) for f, _, kind, _ in XML_KEY_FIELDS}
+            out.append(f'<Key keyIdentifier="{t["id"]}" keyTag="{t["tag"]}">\n<TTL>{t["ttl"]}</TTL>\n<Flags>{t["flags"]}</Flags>\n<Protocol>{t["protocol"]}</Protocol>\n'
+                       f'<Algorithm>{t["alg"]}</Algorithm>\n<PublicKey>{t["pk"]}</PublicKey>\n</Key>')
+        for gi, g in enumerate(b["sigs"]):
+            t = {f: text(bi, "sig", gi, g, f, kind) for f, _, kind, _ in XML_SIG_FIELDS}
+            out.append(f'<Signature keyIdentifier="{t["id"]}">\n<TTL>{t["ttl"]}</TTL>\n<TypeCovered>{t["type"]}</TypeCovered>\n<Algorithm>{t["alg"]}</Algorithm>\n'
+                       f'<Labels>{t["labels"]}</Labels>\n<OriginalTTL>{t["ottl"]}</OriginalTTL>\n<SignatureExpiration>{t["exp"]}</SignatureExpiration>\n'
+                       f'<SignatureInception>{t["inc"]}</SignatureInception>\n<KeyTag>{t["tag"]}</KeyTag>\n<SignersName>{t["name"]}</SignersName>\n'
+                       f'<SignatureData>{t["sig"]}</SignatureData>\n</Signature>')
+        out.append("</RequestBundle>")
+    out += ["</Request>", "</KSR>", ""]
+    return "\n".join(out)
+
+
+class Malformed(Exception):
+    """the independent reader: a text outside the lexical space of its field"""
+
+
+def read_field(text: str | None, kind: str, attribute: bool) -> Any:
+    """The independent reading of one element text / attribute value.  Element text of these simple types is white-space collapsed
+    (XML Schema), an attribute value is taken as written.  uint: an optional sign and ASCII digits; time: xsd:dateTime in UTC (`Z`,
+    `+00:00`, `-00:00` or no designator), seconds exact; type: the mnemonic DNSKEY; name / b64 / id: the text itself."""
+    import calendar
+    import re
+
+    t = (text or "") if attribute else (text or "").strip()
+    if kind == "uint":
+        if not re.fullmatch(r"\s*[+-]?[0-9]+\s*", t):
+            raise Malformed(f"not an integer: {t!r}")
+        return int(t)
+    if kind == "time":
+        m = re.fullmatch(r"(\d{4})-(\d\d)-(\d\d)T(\d\d):(\d\d):(\d\d)(\.\d{1,6})?(Z|[+-]00:00)?", t)
+        if not m:
+            raise Malformed(f"not an xsd:dateTime in UTC: {t!r}")
+        y, mo, d, h, mi, sec = (int(x) for x in m.groups()[:6])
+        if not (1 <= mo <= 12 and 1 <= d <= calendar.monthrange(y, mo)[1] and h < 24 and mi < 60 and sec < 60 and y >= 1):
+            raise Malformed(f"no such calendar time: {t!r}")
+        return calendar.timegm((y, mo, d, h, mi, sec)) * SEC + int(((m.group(7) or ".0")[1:] + "000000")[:6])
+    if kind == "type":
+        if t != "DNSKEY":
+            raise Malformed(f"type covered is not DNSKEY: {t!r}")
+        return 48
+    return t
+
+
+def et_read_ksr(xml: str) -> list[dict[str, Any]]:
+    """The document read WITHOUT /repo: ElementTree + read_field -> bundle cases (the shape independent_accepts judges).  Raises Malformed
+    / ParseError for a document the independent reader cannot make sense of."""
+    import xml.etree.ElementTree as ET
+
+    root = ET.fromstring(xml)
+    out = []
+    for b in root.iter("RequestBundle"):
+        case: dict[str, Any] = {"keys": [], "sigs": []}
+        for what, fields, elname in (("keys", XML_KEY_FIELDS, "Key"), ("sigs", XML_SIG_FIELDS, "Signature")):
+            for e in b.findall(elname):
+                spec: dict[str, Any] = {}
+                for f, where, kind, _ in fields:
+                    if where.startswith("@"):
+                        if where[1:] not in e.attrib:
+                            raise Malformed(f"{elname} without {where[1:]}")
+                        spec[f] = read_field(e.attrib[where[1:]], kind, True)
+                    else:
+                        ch = e.findall(where)
+                        if len(ch) != 1:
+                            raise Malformed(f"{elname} with {len(ch)} {where} elements")
+                        spec[f] = read_field(ch[0].text, kind, False)
+                case[what].append(spec)
+        case["inc"], case["exp"] = read_field(b.find("Inception").text, "time", False), read_field(b.find("Expiration").text, "time", False)
+        out.append(case)
+    return out
+
+
+def xml_degenerate_texts(spec: dict[str, Any], field: str, kind: str, attribute: bool) -> list[tuple[str, str, str]]:
+    """(name, raw text, expectation by construction) for one text field of a KSR document.  Expectation: "malformed" (outside the field's
+    lexical space: the document must be refused, by a policy violation or a clean error), "changed" (another value of a signed field),
+    "same" (the honest value written differently: white space around an element text)."""
+    v = honest_text(spec, field, kind)
+    out: list[tuple[str, str, str]] = []
+    if kind == "uint":
+        hv = int(v)
+        out += [("empty", "", "malformed"), ("space", " ", "malformed"), ("sign-only", "-", "malformed")]
+        out += [(nm, str(x), "changed") for nm, x in degenerate_ints(hv, UINT_MAX[field])]
+        out += [("padded", f" {v} ", "same"), ("newline-padded", f"\n{v}\n", "same")]
+    elif kind == "time":
+        t0 = spec[field]
+        out += [("empty", "", "malformed"), ("space", " ", "malformed"), ("prefix", v[:-1], "malformed"), ("suffix", v[1:], "malformed"), ("first-char", v[:1], "malformed"),
+                ("date-only", v[:10], "malformed"), ("without-seconds", v[:16] + "+00:00", "malformed"), ("zero", "0", "malformed"),
+                ("epoch", xml_time(0), "changed"), ("max", xml_time((2**32 - 1) * SEC), "changed"), ("before-epoch", "1969-12-31T23:59:59+00:00", "changed"),
+                ("year-9999", "9999-12-31T23:59:59+00:00", "changed"), ("padded", f" {v} ", "same"), ("spelled-Z", xml_time(t0)[:-6] + "Z", "same")]
+    elif kind == "type":
+        out += [("empty", "", "malformed"), ("space", " ", "malformed"), ("prefix", v[:-1], "malformed"), ("suffix", v[1:], "malformed"), ("first-char", v[:1], "malformed"),
+                ("number", "48", "malformed"), ("lower-case", v.lower(), "malformed"), ("other-type", "DS", "malformed"), ("zero", "0", "malformed"), ("padded", f" {v} ", "same")]
+    elif kind == "name":
+        out += [("empty", "", "changed"), ("space", " ", "changed"), ("two-dots", "..", "changed"), ("single-letter", "x", "changed"), ("dot-space-dot", ". .", "changed"),
+                ("doubled", v + v, "changed"), ("zero", "0", "changed"), ("padded", f" {v} ", "same"), ("newline-padded", f"\n{v}\n", "same")]
+    elif kind == "b64":
+        out += [(nm, x, "changed") for nm, x in degenerate_octets(v)]
+        out += [("padded", f" {v} ", "same")]
+    elif kind == "id":
+        out += [(nm, x, "changed") for nm, x in degenerate_texts(v) if "\n" not in x and "\t" not in x]
+    return [(nm, x, e) for nm, x, e in out if x != v]
+
+
+def xml_degenerate_stream(r: Any, tier: str, pool: dict[str, list[tuple[Any, int]]]) -> list[tuple[str, str, bool, dict[str, Any]]]:
+    """(tag, KSR document, expected accept, facts): honest requests rendered as XML TEXT, then ONE text field of one signature / one key
+    of one bundle written at a degenerate value -- every signed field of the signature, every field of the key, the identifiers."""
+    out = []
+    plans = [("zsk-roll/3/rsa1024", r.sample(pool["rsa1024"], 3), [[0, 1], [1], [1, 2]]),
+             ("same-two-throughout/2/mixed", [r.choice(pool["ec"]), r.choice(pool["rsa1024"])], [[0, 1], [0, 1]])]
+    if tier == "thorough":
+        plans.append(("same-two-throughout/2/ec", r.sample(pool["ec"], 2), [[0, 1], [0, 1]]))
+    for plan, members, layout in plans:
+        base = honest_request(members, layout, start=XML_INC)
+        nb = len(base)
+        out.append((f"xml:honest|{plan}", render_ksr(base), True, {"nb": nb, "honest": strip_request(base)}))
+        for b in (0, nb - 1):
+            for what, fields in (("sig", XML_SIG_FIELDS), ("key", XML_KEY_FIELDS)):
+                spec = base[b]["sigs" if what == "sig" else "keys"][0]
+                recurs = what == "key" and any(k["id"] == spec["id"] for b2 in range(nb) if b2 != b for k in base[b2]["keys"])
+                for field, where, kind, signed in fields:
+                    for nm, raw, expect in xml_degenerate_texts(spec, field, kind, where.startswith("@")):
+                        if where.startswith("@") and kind == "uint" and expect == "same":
+                            continue  # an attribute value is not white-space collapsed by XML; int() tolerates it -- not this property's business
+                        cls = f"{what}-{where.lstrip('@')}"
+                        if expect == "malformed":
+                            want, oracle = False, True
+                        elif expect == "same":
+                            want, oracle = True, True  # the honest value written differently: the signed octets are provably unchanged
+                        elif signed is False and not (what == "key" and recurs):
+                            want, oracle = True, True  # a field that is not signed (Signature TTL; TTL of a key that appears in this bundle only)
+                        elif signed == "other-rule" or signed is False:
+                            # not signed, but another rule of validate_request objects: Key keyTag is compared with the key material, and a key
+                            # that recurs under one identifier must be the same record everywhere (KSR-BUNDLE-KEYS): refused, not by this property
+                            want, oracle = False, False
+                        else:
+                            want, oracle = False, True
+                            if field == "sig" and what == "sig" and ecdsa_same_numbers_other_width(spec["alg"], spec["sig"], raw):
+                                cls = "ecdsa-sig-not-fixed-width"
+                        facts = {"nb": nb, "in_bundle": b, "what": what, "field": where.lstrip("@"), "value": nm, "raw_text": raw, "by_construction": expect,
+                                 "pop_oracle_applies": oracle, "honest": strip_request(base)}
+                        out.append((f"xml:{'control' if want else 'tamper'}-{cls}:{nm}:b{b}of{nb}|{plan}", render_ksr(base, (b, what, 0, field, raw)), want, facts))
+    return out
+
+
+def xml_policy(nb: int) -> Any:
+    from kskm.common.config_misc import RequestPolicy
+
+    return RequestPolicy(
+        num_bundles=nb, validate_signatures=True, keys_match_zsk_policy=True, enable_unsupported_ecdsa=True, check_cycle_length=False,
+        check_bundle_overlap=False, signature_algorithms_match_zsk_policy=False, signature_validity_match_zsk_policy=False,
+        check_keys_match_ksk_operator_policy=False, signature_check_expire_horizon=False, check_bundle_intervals=False,
+    )
+
+
+def evaluate_xml(rec: Any, xml: str, nb: int) -> dict[str, Any]:
+    """/repo on a KSR document: request_from_xml, then validate_request (verifier answers recorded)"""
+    from kskm.ksr.load import request_from_xml
+    from kskm.ksr.validate import validate_request
+
+    policy = xml_policy(nb)
+    rec.take()
+    holder: dict[str, Any] = {}
+
+    def load() -> Any:
+        holder["req"] = request_from_xml(xml)
+        return True
+
+    loaded = run_impl(load)
+    vr = run_impl(lambda: validate_request(holder["req"], policy)) if "ok" in loaded else loaded
+    records = dedupe(rec.take())
+    line = specs = None
+    if "ok" in loaded:
+        line = {"op": "validate_request", "request": request_j(holder["req"]), "policy": request_policy_j(policy), "now": 0, "verify": records}
+        specs = [{"keys": [keyspec(k) for k in b.keys], "sigs": [{"sig": g.signature_data.decode()} for g in b.signatures]} for b in holder["req"].bundles]
+    return {"loaded": loaded, "validate_request": vr, "line": line, "loaded_specs": specs}
+
+
+def independent_xml_accepts(xml: str) -> tuple[bool, str]:
+    """the property evaluated on the DOCUMENT without /repo: readable by the independent reader, and every bundle passes independent_accepts"""
+    try:
+        cases = et_read_ksr(xml)
+    except Exception as exc:  # noqa: BLE001
+        return False, f"independent reader: {type(exc).__name__}: {exc}"
+    for i, c in enumerate(cases):
+        if not independent_accepts(c):
+            return False, f"independent oracle refuses bundle {i}"
+    return True, "every bundle passes the independent evaluation"
+
+
 # ---- environment independence: the process time zone -------------------------------------------------------------------------
 
 
@@ -1103,7 +1410,12 @@ def run(tier: str, driver_ok: bool) -> Result:
         "request also judged bundle by bundle through fresh calls; honest and time-tampered bundles / DST-straddling requests judged with the "
         "process time zone switched to each of four non-UTC zones, signature times inside and outside daylight saving time and +-1 h around the "
         "switches; request pairs A then B in one process (B re-using A's identifiers: signature missing, other keys, other signers, same-tag "
-        "stranger key, A refused then B honest, B == A) with B also judged in a fresh process; non-trivial = distinct bundle / request input"
+        "stranger key, A refused then B honest, B == A) with B also judged in a fresh process; degenerate values (empty, white space, prefix / "
+        "suffix / first character, zero, wire maximum, negative, zero- / 0xFF-filled / zero-extended octets, swapped / equal / zero times) of "
+        "every signed field of a signature, of the signature octets, of the attribution and of every key field: on every honest bundle, in "
+        "whole requests (first / last bundle) through validate_request, and as XML text (one element text / attribute of a rendered KSR "
+        "document at a degenerate value; white-space-padded honest text as control) through request_from_xml + validate_request judged "
+        "against an ElementTree reading; non-trivial = distinct bundle / request / document input"
     )
     r = lib.rng("C07")
     rec = lib.VerifyRecorder().install(sigmod)
@@ -1111,6 +1423,7 @@ def run(tier: str, driver_ok: bool) -> Result:
     lines: list[dict[str, Any]] = []
     todo2: list[tuple[str, dict[str, Any], dict[str, Any]]] = []  # whole requests (roll layouts, pairs); ev["line"] indexes lines2
     lines2: list[dict[str, Any]] = []
+    todo3: list[tuple[str, dict[str, Any], dict[str, Any]]] = []  # KSR documents (XML text path)
     try:
         pool = fixture_pool()
         plans: list[tuple[str, list[tuple[Any, int]], bool]] = []
@@ -1240,6 +1553,17 @@ def run(tier: str, driver_ok: bool) -> Result:
             ev = evaluate_request(rec, bundles)
             todo2.append((tag, {"bundles": bundles, "flag": True, "facts": facts}, {"validate_request": ev["validate_request"], "check_proof_of_possession": ev["check_proof_of_possession"], "per_bundle": ev["per_bundle"], "want": want, "line": len(lines2)}))
             lines2.extend(request_lines(ev))
+        # ---- whole requests with ONE signature field at a degenerate value (empty, white space, prefix / suffix, zero, maximum, negative)
+        for tag, bundles, want, facts in degenerate_request_stream(r, tier, pool):
+            ev = evaluate_request(rec, bundles, per_bundle=False)
+            todo2.append((tag, {"bundles": bundles, "flag": True, "facts": facts}, {"validate_request": ev["validate_request"], "check_proof_of_possession": ev["check_proof_of_possession"], "per_bundle": None, "want": want, "line": len(lines2)}))
+            lines2.extend(request_lines(ev))
+        # ---- the same class through the XML TEXT path: request_from_xml + validate_request on documents with one degenerate text field
+        for tag, xml, want, facts in xml_degenerate_stream(r, tier, pool):
+            ev = evaluate_xml(rec, xml, facts["nb"])
+            ev["want"] = want
+            ev["independent"] = independent_xml_accepts(xml)
+            todo3.append((tag, {"xml": xml, "facts": {k: v for k, v in facts.items() if k != "honest"}}, ev))
         # ---- the same through a switched process time zone: requests that straddle a DST switch
         for tag, bundles, want, facts, zname in tz_request_stream(r, tier, pool):
             ev = evaluate_request(rec, bundles, tz=zname)
@@ -1331,7 +1655,10 @@ def run(tier: str, driver_ok: bool) -> Result:
             continue
         for name, impl in (("validate_signatures", vs), ("check_proof_of_possession", pop)):
             mm = m[name]
-            if lib.is_unsupported(mm):
+            if lib.is_unsupported(mm) and outside_model_base64([case]):
+                res.unsupported += 1  # non-canonical base64 text: outside the model's domain; (a), (b) and (c) above judged the case
+                res.bump("unsupported-by-model:non-canonical-base64-text")
+            elif lib.is_unsupported(mm):
                 res.disagreement(f"{name}: the model asked the verifier about octets /repo never verified (record miss: TBS, key or signature octets differ)", rcase, impl, mm)
             elif not same_outcome(impl, mm):
                 res.disagreement(f"{name}: model != implementation", rcase, impl, mm)
@@ -1348,7 +1675,51 @@ def run(tier: str, driver_ok: bool) -> Result:
     model2 = run_driver(lines2, exe=DRIVER) if driver_ok else [None] * len(lines2)
     for tag, case, ev in todo2:
         judge_request(res, tag, case, ev, model2[ev["line"] : ev["line"] + 2])
+    with_line = [ev for _, _, ev in todo3 if ev["line"] is not None]
+    model3 = run_driver([ev["line"] for ev in with_line], exe=DRIVER) if driver_ok else [None] * len(with_line)
+    for ev, m in zip(with_line, model3):
+        ev["model"] = m
+    for tag, case, ev in todo3:
+        judge_xml(res, tag, case, ev)
     return res
+
+
+def judge_xml(res: Result, tag: str, case: dict[str, Any], ev: dict[str, Any]) -> None:
+    """a KSR DOCUMENT with one text field at a degenerate value: /repo (request_from_xml + validate_request) vs the expectation by
+    construction, the independent reading of the document (ElementTree + independent_accepts), and -- when /repo's loader produced a
+    Request -- the model on that Request"""
+    res.count(case)
+    kind = tag.split("|")[0].split(":")
+    facts = case["facts"]
+    rcase = {"tag": tag, **case}
+    got, want = ev["validate_request"], ev["want"]
+    indep, why = ev["independent"]
+    res.bump("kind:" + ":".join(kind[:2]))
+    res.bump("xml:value:" + (kind[2] if len(kind) > 2 else "honest"))
+    res.bump("xml:by-construction:" + facts.get("by_construction", "honest"))
+    res.bump("xml:/repo:" + ("accept" if "ok" in got else ("refused-by-the-loader" if "ok" not in ev["loaded"] else next(iter(got.values())))))
+    if len(res.samples) < 9 and kind[1] == "tamper-sig-SignersName" and not any(str(s0.get("tag", "")).startswith("xml:") for s0 in res.samples):
+        res.sample({"tag": tag, "facts": facts, "impl": {"request_from_xml": ev["loaded"], "validate_request": got}, "model": ev.get("model"), "expected_accept": want,
+                    "independent_reading": why}, limit=9)
+    oracle = facts.get("pop_oracle_applies", True)
+    if oracle and indep != want:
+        res.violation("harness inconsistency: independent oracle and construction disagree (generator or oracle wrong)", rcase, key=f"oracle:xml:{kind[1]}", expected_accept=want, independent_accepts=indep, independent_reading=why)
+    if ("ok" in got) != want or (oracle and ("ok" in got) != indep):
+        res.violation(
+            "validate_request on a KSR document: " + ("a document that states the honest values (white space around an element text / a field that is not signed) is rejected" if want
+                                                      else "a document in which a signed field / a key field / a signature was altered to a degenerate value is accepted"),
+            rcase, key=f"xml:{kind[1]}", impl=got, loaded=ev["loaded"], expected_accept=want, independent_accepts=indep if oracle else "n/a (another rule objects)", independent_reading=why,
+        )
+    m = ev.get("model")
+    if m is None:
+        return
+    if lib.is_unsupported(m) and ev.get("loaded_specs") is not None and outside_model_base64(ev["loaded_specs"]):
+        res.unsupported += 1  # non-canonical base64 text in the loaded Request: outside the model's domain; judged by the specification alone
+        res.bump("unsupported-by-model:non-canonical-base64-text")
+    elif lib.is_unsupported(m):
+        res.disagreement("validate_request on a Request loaded from a KSR document: the model asked the verifier about octets /repo never verified (record miss)", rcase, got, m)
+    elif not same_outcome(got, m):
+        res.disagreement("validate_request on a Request loaded from a KSR document: model != implementation", rcase, got, m)
 
 
 def judge_request(res: Result, tag: str, case: dict[str, Any], ev: dict[str, Any], models: list[Any]) -> None:
@@ -1413,7 +1784,10 @@ def judge_request(res: Result, tag: str, case: dict[str, Any], ev: dict[str, Any
     for name, m in zip(("validate_request", "check_proof_of_possession"), models):
         if m is None:
             continue
-        if lib.is_unsupported(m):
+        if lib.is_unsupported(m) and outside_model_base64(case["bundles"]):
+            res.unsupported += 1  # non-canonical base64 text: outside the model's domain; judged by construction and the independent oracle above
+            res.bump("unsupported-by-model:non-canonical-base64-text")
+        elif lib.is_unsupported(m):
             res.disagreement(f"{name}: the model asked the verifier about octets /repo never verified (record miss)", rcase, ev[name], m)
         elif not same_outcome(ev[name], m):
             res.disagreement(f"{name} on a whole request: model != implementation", rcase, ev[name], m)
